@@ -654,6 +654,12 @@ func checkC15(c *Ctx) {
 			construct := sprintf("error of the request entry in %s#%d", fname(fn), nSite)
 			// verdict for one function and the value that is the entry's error there: "" = every path from its
 			// non-nil edge builds the answer; the test may sit in a helper the error is handed to
+			var resv ssa.Value
+			for _, r := range *call.Referrers() {
+				if ex, ok := r.(*ssa.Extract); ok && ex.Index == 0 {
+					resv = ex
+				}
+			}
 			var judge func(f *ssa.Function, ev ssa.Value, d int) string
 			judge = func(f *ssa.Function, ev ssa.Value, d int) string {
 				var failEdge *ssa.BasicBlock
@@ -688,6 +694,14 @@ func checkC15(c *Ctx) {
 							}
 							for i, a := range hc.Call.Args {
 								if a == ev && i < len(sc.Params) {
+									// the helper is handed the result as well: it must look at the error first
+									for j, a2 := range hc.Call.Args {
+										if resv != nil && a2 == resv && j < len(sc.Params) {
+											if why := errorFirst(c, sc, sc.Params[i], sc.Params[j], en); why != "" {
+												return why
+											}
+										}
+									}
 									return judge(sc, sc.Params[i], d+1)
 								}
 							}
@@ -1139,4 +1153,36 @@ func c15ResultPrivate(c *Ctx, rule string) {
 	if n < 3 {
 		c.R.Break("%s: only %d slice members of handler results are filled in", rule, n)
 	}
+}
+
+
+// errorFirst: in f, which is handed the request entry's result rv and error ev, every look at the result (a type
+// assertion / type switch on it) happens after the error has been tested: the test of ev dominates it. A result that is
+// inspected first wins over the error — a middleware that fails after an inner stage produced a JSON-RPC error is then
+// answered with the inner error instead of the internal error its own failure calls for.
+func errorFirst(c *Ctx, f *ssa.Function, ev, rv ssa.Value, en string) string {
+	var test *ssa.If
+	for _, b := range f.Blocks {
+		if len(b.Instrs) == 0 {
+			continue
+		}
+		if ifi, ok := b.Instrs[len(b.Instrs)-1].(*ssa.If); ok {
+			if v, _, ok := nilCompare(ifi.Cond); ok && v == ev {
+				test = ifi
+			}
+		}
+	}
+	if test == nil || rv.Referrers() == nil {
+		return ""
+	}
+	for _, r := range *rv.Referrers() {
+		ta, ok := r.(*ssa.TypeAssert)
+		if !ok {
+			continue
+		}
+		if !flow.Dominates(test, ta) {
+			return sprintf("%s looks at the result of %s (a type assertion at %s) before it has tested the error returned with it: when a middleware fails after an inner stage produced a JSON-RPC error, the client receives that inner error instead of the internal error (-32603) the failure calls for", fname(f), en, c.Pos(ta.Pos()))
+		}
+	}
+	return ""
 }
